@@ -53,6 +53,8 @@ def prior(rng, n, kind=None):
     p = rng.random(n) + 0.05
     if kind == 2:
         p[int(rng.integers(0, n))] = 0.01
+    if kind == 3 and n >= 3:  # one state is never sent: an exact zero that is not in the last position
+        p[int(rng.integers(0, n - 1))] = 0.0
     return p / p.sum()
 
 
